@@ -5,7 +5,7 @@ import z3
 
 from pvc.core import *  # noqa: F401,F403
 from pvc import core, ops
-from pvc.ops import State, to_u, truthy
+from pvc.ops import State, to_u, truthy, global_const
 from pvc.spec_eval import SpecMixin, SpecCtx, parse_spec
 from pvc.expr_eval import ExprMixin
 from pvc.calls import CallMixin
